@@ -559,4 +559,13 @@ def run(ctx):
     ctx.guard("geometry", "Params", lambda: check_geometry(ctx, P))
     ctx.guard("table", "constants", lambda: check_constants(ctx, P))
     ctx.guard("entries", "argon2", lambda: check_entries(ctx, P))
-    ctx.not_decided += ["the compression function G / fill_block values and the memory contents", "BLAKE2b itself (C01)"]
+    # H0, H' and the final tag are variable-length BLAKE2b digests: the parameter block, final block, digest serialisation
+    # and buffering rules of the hashing layer, and BLAKE2b's compression as a value graph in the SIMD builds (shared with C01 / C02)
+    from . import C01 as _C01, C02 as _C02, simdeq as _simdeq
+    ctx.guard("blake2-param", "engines", lambda: _C01.check_blake2_params(ctx, P))
+    ctx.guard("absorb", "all", lambda: _C02.check_absorb(ctx, P))
+    progs = {k: ctx.prog(k) for k in ("K4", "K5")}
+    got = []
+    ctx.guard("lane-eq", "blake2-simd", lambda: got.append(_simdeq.check_blake2_simd(ctx, progs)))
+    ctx.check(got == [6], "floor", "lane-eq", "3 SIMD BLAKE2 compression functions x {final, non-final} compared with RFC 7693 F", "only %s SIMD BLAKE2 comparisons ran" % got, key="floor:lane-eq")
+    ctx.not_decided += ["the compression function G / fill_block values and the memory contents", "BLAKE2b's portable compression as a number (the SIMD ones equal RFC 7693 F as value graphs)"]
